@@ -66,8 +66,10 @@ def AgmState.term (s : AgmState K) : K := s.mul * spowi s.c 2
 /-- the stopping test of the current pass: `term <= accuracy * g` -/
 def AgmState.stops (accuracy : K) (s : AgmState K) : Bool := s.term <=. accuracy * s.g
 
-/-- a pass that leaves by `break`: `sum -= term; sum -= term` -/
-def agmExit (s : AgmState K) : AgmState K := { s with sum := s.sum - s.term - s.term }
+/-- a pass that leaves by `break`: `sum -= term; sum -= term; a = (a + g) / 2.` (the last assignment since 93c0fd9: the value is
+    divided by the NEXT arithmetic mean, not by the current one) -/
+def agmExit (s : AgmState K) : AgmState K :=
+  { s with sum := s.sum - s.term - s.term, a := (s.a + s.g) / (2 : K) }
 
 /-- a pass that does not stop: `sum -= term; mul *= 2; c = (a − g)/2; a_next = (a + g)/2; g = √(a·g); a = a_next` -/
 def agmStep (s : AgmState K) : AgmState K :=
